@@ -124,6 +124,11 @@ func runC01Flow(t *testing.T, cases []map[string]interface{}, ev *vEvents) {
 			} else {
 				take(w.Do(vReq{Method: "POST", Path: webAuthnAuthFinishPath, Cookies: ck, RawBody: lost.webauthnAssertion(ch), BodyType: "application/json"}))
 			}
+		case "relogin_other_u2f_cookie":
+			session = "none" // only what this login hands out is presented
+			take(w.Do(vReq{Method: "POST", Path: "/api/v0/login", Headers: map[string]string{"Accept": "application/json"},
+				Cookies: map[string]string{authCookieName: w.mintCookie("mallory", AuthTypePassword|AuthTypeU2F, 0)},
+				Form:    url.Values{"username": {"alice"}, "password": {"pw-alice"}}}))
 		case "botp_rolecert_other":
 			w.armBootstrapOTP("svc", "otp-svc", time.Hour)
 			q := role()
